@@ -660,8 +660,8 @@ def check_converter_selection_keys(ctx):
         ctx.check("C10-i", set(keys) == {"output.filetype"} and not other, fn, "%s decides by %s: the converter selects by output.filetype "
                   "alone, a value without that key (or with another type) passes unchanged"
                   % (qual, sorted(set(keys) | set(other))), detail="%s reads only output.filetype" % qual, construct="selection-keys:%s" % qual)
-        consts = [A.const(x.comparators[0]) for x in A.walk_local(fn) if isinstance(x, ast.Compare) and len(x.ops) == 1
-                  and isinstance(x.ops[0], (ast.Eq, ast.NotEq)) and isinstance(A.const(x.comparators[0]), str)]
+        consts = [A.const(side) for x in A.walk_local(fn) if isinstance(x, ast.Compare) and len(x.ops) == 1
+                  and isinstance(x.ops[0], (ast.Eq, ast.NotEq)) for side in (x.left, x.comparators[0]) if isinstance(A.const(side), str)]
         ctx.check("C10-i", set(consts) == {want}, fn, "%s compares the file type with %s, not with %r" % (qual, sorted(set(consts)), want),
                   detail="%s: filetype == %r" % (qual, want), construct="selection-const:%s" % qual)
     ctx.instances_floor("C10-i", n, 2, "converter selection predicates")
